@@ -203,3 +203,26 @@ func (b *Bank) Unchanged(s BankSnapshot) bool {
 	}
 	return ok
 }
+
+func (b *Bank) HasBalance(ctx context.Context, addr sdk.AccAddress, amt sdk.Coin) bool {
+	return b.Balance(addr, amt.Denom).GTE(amt.Amount)
+}
+
+func (b *Bank) SpendableCoins(ctx context.Context, addr sdk.AccAddress) sdk.Coins {
+	panic("models.Bank: SpendableCoins not modelled")
+}
+
+// SetMeta registers bank metadata for a denom (pre-state).
+func (b *Bank) SetMeta(denom string) { b.meta[denom] = banktypes.Metadata{Base: denom} }
+
+// Restore resets balances and supply to a snapshot (a reverted transaction).
+func (b *Bank) Restore(s BankSnapshot) {
+	b.bal = map[string]sdkmath.Int{}
+	b.supply = map[string]sdkmath.Int{}
+	for k, v := range s.bal {
+		b.bal[k] = v
+	}
+	for k, v := range s.supply {
+		b.supply[k] = v
+	}
+}
